@@ -720,6 +720,15 @@ def _version_gates(ctx):
         for f, lvl in gated_fields:
             ctx.ob("R12.3", "%s|default-zero|%s" % (cls, f), f in zero, ctors[0].loc(),
                    "field added in 3.%d %s the documented default 0 when the file lacks it" % (lvl, "has" if f in zero else "does NOT get"))
+        # historical layouts: what a reader sees of a file of minor version k
+        import json, os
+        hist = json.load(open(os.path.join(os.path.dirname(os.path.dirname(__file__)), "spec", "idb_format_history.json")))
+        if cls in hist:
+            for k, want_k in sorted(hist[cls].items()):
+                k = int(k)
+                seen_k = [x.what for x in ni[:pos] if x.kind == "scalar"] + [f for (f, lvl) in gated_fields if lvl <= k]
+                ctx.ob("R12.3", "%s::input|layout-of-3.%d" % (cls, k), seen_k == want_k, fi.loc(gates[0].node),
+                       "scalar fields read from a 3.%d file: %s; released format: %s" % (k, seen_k, want_k))
         ctx.floor("R12.3", "gated fields in %s" % cls, len(gated_fields), 6 if cls == "InterrogateElement" else 1)
 
 
